@@ -319,7 +319,30 @@ def lenext(ctx):
     _expect(ctx, "R35.length-extension", c, ["lenext_bad", "lenext_read_bad"], ["lenext_good", "lenext_read_good"])
 
 
-ALL = {"lenext": lenext, "xxh": xxh, "signedoff": signedoff, "reqalloc": reqalloc, "fieldfit": fieldfit, "stalefield": stalefield, "hidden": hidden, "region_args": region_args, "widen": widen, "progress": progress, "lazyinit": lazyinit, "lanes": lanes, "atomic": atomic, "feasible": feasible, "endian": endian, "units": units, "alloc": alloc, "status": status, "ownership": ownership, "cursor": cursor, "arrays": arrays,
+def sizekind(ctx):
+    from .rules import sizekind as sk
+    P = program()
+    c = _sub()
+    rec = [k for k, r in P.records.items() if any(f["n"] == "total_plain" for f in r["fields"])][0]
+    table = {(rec, "total_stored"): sk.STORED, (rec, "pos"): sk.STORED, (rec, "page_stored"): sk.STORED,
+             (rec, "page_hdr"): sk.STORED, (rec, "total_plain"): sk.PLAIN}
+    n = sk.check(c, [P.fn("sizekind_bad"), P.fn("sizekind_good")], table=table)
+    ctx.control("R36.size-kind judges the control comparisons", n == 3, str(n))
+    _expect(ctx, "R36.size-kind", c, ["sizekind_bad"], ["sizekind_good"])
+
+
+def threadcount(ctx):
+    from .rules import threadcount as tc
+    P = program()
+    c = _sub()
+    rec = [k for k, r in P.records.items() if any(f["n"] == "threads" for f in r["fields"]) and any(f["n"] == "cells" for f in r["fields"])][0]
+    fns = [P.fn(x, "src/controls_omp.c") for x in ("ctl_warm", "threadcount_caller", "threadcount_good")]
+    n = tc.check(c, fns, members={(rec, "threads")})
+    ctx.control("R37.thread-count judges the control branches", n == 5, str(n))
+    _expect(ctx, "R37.thread-count", c, ["ctl_warm"], ["threadcount_good", "threadcount_caller"])
+
+
+ALL = {"threadcount": threadcount, "sizekind": sizekind, "lenext": lenext, "xxh": xxh, "signedoff": signedoff, "reqalloc": reqalloc, "fieldfit": fieldfit, "stalefield": stalefield, "hidden": hidden, "region_args": region_args, "widen": widen, "progress": progress, "lazyinit": lazyinit, "lanes": lanes, "atomic": atomic, "feasible": feasible, "endian": endian, "units": units, "alloc": alloc, "status": status, "ownership": ownership, "cursor": cursor, "arrays": arrays,
        "recursion": recursion, "narrowing": narrowing, "skeleton": skeleton, "must_pass": must_pass}
 
 
